@@ -1,15 +1,193 @@
 package ppool
 
 import (
+	"fmt"
+	"os"
+	"sync/atomic"
+	"time"
+
+	"github.com/ontio/ontology-eventbus/actor"
+	"github.com/polynetwork/poly/common"
+	"github.com/polynetwork/poly/common/config"
+	"github.com/polynetwork/poly/core/ledger"
+	"github.com/polynetwork/poly/core/types"
+	perr "github.com/polynetwork/poly/errors"
+	"github.com/polynetwork/poly/validator/stateful"
+	vatypes "github.com/polynetwork/poly/validator/types"
 	"pgregory.net/rapid"
 
 	"verif/harness/ev"
+	"verif/harness/lworld"
 )
 
-const c38LedgerEnabled = false
+// ---------------------------------------------------------------------------------------------
+// C38, ledger-backed part: the real stateful-validator actor (validator/stateful) over a real
+// ledger (lworld: ledgerstore on a temp dir, VBFT genesis for 4 pool validators, correctly linked
+// and signed blocks committed through ExecuteBlock+SubmitBlock). After genesis and after every
+// committed block the actor is asked about every transaction of the case (committed earlier,
+// committed just now, not yet committed, never committed), about the genesis transaction, and
+// about a re-decoded copy (same hash, other object) of each.
+// Oracle: the harness's own record of which transactions it put into committed blocks.
 
-func c38LedgerPercent() int { return 0 }
+const c38LedgerEnabled = true
 
-func genC38Ledger(t *rapid.T) c38Case { return c38Case{Mode: "ledger"} }
+const c38LedgerIDs = 8
 
-func runC38Ledger(ctx *ev.Ctx, c c38Case) {}
+func genC38Ledger(t *rapid.T) c38Case {
+	c := c38Case{Mode: "ledger"}
+	c.Blocks = rapid.SliceOfN(rapid.SliceOfN(rapid.IntRange(0, c38LedgerIDs-1), 0, 3), 1, ev.Scale(4, 6)).Draw(t, "blocks")
+	return c
+}
+
+// ledger cases cost ~50x a tracker case: 1 in 16
+func c38DrawLedger(t *rapid.T) bool {
+	return rapid.Bool().Draw(t, "l1") && rapid.Bool().Draw(t, "l2") && rapid.Bool().Draw(t, "l3") && rapid.Bool().Draw(t, "l4")
+}
+
+var c38ActorSeq int64
+
+func c38LedgerTx(id int, netID uint32) *types.Transaction {
+	// odd ids: the script fails when executed; the transaction is in the block (and the ledger) all the same
+	steps := []lworld.Step{{Op: "put", K: ev.B{byte(id)}, V: ev.B{0xaa, byte(id)}}}
+	if id%2 == 1 {
+		steps = append(steps, lworld.Step{Op: "fail"})
+	}
+	return lworld.MakeSignedTx(config.GetChainIdByNetId(netID), uint32(7000+id), lworld.ProbeAddress, "run", lworld.EncodeScript(steps), nil)
+}
+
+func redecode(tx *types.Transaction) *types.Transaction {
+	t2, err := types.TransactionFromRawBytes(append([]byte(nil), tx.ToArray()...))
+	if err != nil {
+		panic("harness: tx does not re-decode: " + err.Error())
+	}
+	return t2
+}
+
+func runC38Ledger(ctx *ev.Ctx, c c38Case) {
+	const netID = 2
+	dir := lworld.TempDir("c38")
+	defer os.RemoveAll(dir)
+	ch, err := lworld.Open(dir, 4, netID)
+	if err != nil {
+		ctx.Failf("harness: open ledger: %v", err)
+	}
+	defer ch.Close()
+	old := ledger.DefLedger
+	ledger.DefLedger = ch.Ledger
+	defer func() { ledger.DefLedger = old }()
+
+	// the real actor; its PID is only handed out through Register
+	got := make(chan *vatypes.RegisterValidator, 1)
+	recv := actor.Spawn(actor.FromFunc(func(c actor.Context) {
+		if m, ok := c.Message().(*vatypes.RegisterValidator); ok {
+			select {
+			case got <- m:
+			default:
+			}
+		}
+	}))
+	defer recv.Stop()
+	name := fmt.Sprintf("verif-stateful-%d-%d", os.Getpid(), atomic.AddInt64(&c38ActorSeq, 1))
+	v, err := stateful.NewValidator(name)
+	if err != nil {
+		ctx.Failf("harness: NewValidator: %v", err)
+	}
+	if v.VerifyType() != vatypes.Stateful {
+		ctx.Failf("stateful validator announces verify type %d", v.VerifyType())
+	}
+	v.Register(recv)
+	var pid *actor.PID
+	select {
+	case m := <-got:
+		pid = m.Sender
+		if m.Type != vatypes.Stateful || m.Id != name {
+			ctx.Failf("stateful validator registered as type %d id %q (want stateful, %q)", m.Type, m.Id, name)
+		}
+	case <-time.After(20 * time.Second):
+		ctx.Failf("harness: validator did not register within 20 s")
+	}
+	defer pid.Tell(&vatypes.UnRegisterAck{Id: name, Type: vatypes.Stateful}) // the actor stops itself on this
+
+	txs := make([]*types.Transaction, c38LedgerIDs)
+	for id := range txs {
+		txs[id] = c38LedgerTx(id, netID)
+	}
+	genesisTx := ch.Genesis.Transactions[0]
+	committed := map[int]bool{}
+	height := uint32(0)
+	var askedCommitted, askedFresh bool
+
+	ask := func(tx *types.Transaction, want perr.ErrCode, what string, worker uint8) {
+		res, err := pid.RequestFuture(&vatypes.CheckTx{WorkerId: worker, Tx: tx}, 30*time.Second).Result()
+		if err != nil {
+			ctx.Failf("stateful validator did not answer for %s: %v", what, err)
+		}
+		r, ok := res.(*vatypes.CheckResponse)
+		if !ok {
+			ctx.Failf("stateful validator answered %T for %s", res, what)
+		}
+		if r.ErrCode != want {
+			ctx.Failf("stateful validation of %s at ledger height %d: error code %d (%s), want %d (%s)",
+				what, height, r.ErrCode, r.ErrCode.Error(), want, want.Error())
+		}
+		if r.Hash != tx.Hash() || r.WorkerId != worker || r.Type != vatypes.Stateful {
+			ctx.Failf("stateful validator response for %s does not echo the request: hash %x worker %d type %d", what, r.Hash, r.WorkerId, r.Type)
+		}
+		if r.Height != height {
+			ctx.Failf("stateful validator response for %s carries height %d, the ledger is at %d", what, r.Height, height)
+		}
+	}
+	askAll := func() {
+		ask(genesisTx, perr.ErrDuplicatedTx, "the genesis transaction", 0)
+		for id, tx := range txs {
+			want := perr.ErrNoError
+			what := fmt.Sprintf("tx %d (not in the ledger)", id)
+			if committed[id] {
+				want = perr.ErrDuplicatedTx
+				what = fmt.Sprintf("tx %d (in a committed block)", id)
+				askedCommitted = true
+			} else {
+				askedFresh = true
+			}
+			ask(tx, want, what, uint8(id))
+			ask(redecode(tx), want, what+" as a re-decoded object", uint8(id+100))
+		}
+		// a transaction of another chain id with the same nonce/payload is a different transaction
+		other := lworld.MakeSignedTx(config.GetChainIdByNetId(netID)+1, 7000, lworld.ProbeAddress, "run",
+			lworld.EncodeScript([]lworld.Step{{Op: "put", K: ev.B{0}, V: ev.B{0xaa, 0}}}), nil)
+		if other.Hash() == txs[0].Hash() {
+			ctx.Failf("harness: chain id does not enter the tx hash")
+		}
+		ask(other, perr.ErrNoError, "a never-committed transaction", 250)
+	}
+
+	askAll()
+	for bi, ids := range c.Blocks {
+		var list []*types.Transaction
+		now := map[int]bool{}
+		for _, id := range ids {
+			id = ((id % c38LedgerIDs) + c38LedgerIDs) % c38LedgerIDs
+			if committed[id] || now[id] {
+				continue // a transaction is committed at most once
+			}
+			now[id] = true
+			list = append(list, txs[id])
+		}
+		b := lworld.Roundtrip(ch.Build(list, lworld.BlockOpt{}))
+		if err := ch.Commit(b); err != nil {
+			ctx.Failf("harness: block %d rejected by the ledger: %v", bi+1, err)
+		}
+		for id := range now {
+			committed[id] = true
+		}
+		height++
+		if h := ch.Ledger.GetCurrentBlockHeight(); h != height {
+			ctx.Failf("harness: ledger height %d after %d blocks", h, height)
+		}
+		askAll()
+	}
+	if askedCommitted && askedFresh {
+		ctx.NonTrivial()
+	}
+	var _ = common.Uint256{}
+}
